@@ -54,6 +54,10 @@ THEOREMS = [
      'forall (s e : spec_float) (raw : Z), SFltb s e = true -> exists x, float_range s e raw = Some x /\\ SFleb s x = true /\\ SFltb x e = true'),
     ('c14_float_empty_panics',
      'forall (s e : spec_float) (raw : Z), SFltb s e = false -> float_range s e raw = None'),
+    ('c14_generic_instance',
+     'forall st, glcg_step lcg_A lcg_C st = lcg_step st /\\ gnext_raw lcg_A lcg_C st = next_raw st /\\ gnext lcg_A lcg_C st = rng_next st'),
+    ('c14_jump_is_iterated_step',
+     'forall (a c : Z) (n : N) (st : Z), lcg_jump a c n st = iter_n (glcg_step a c) (N.to_nat n) st'),
     ('c14_model_check_spec_check',
      'forall c : case, in_scope c = true -> model_check c = true -> spec_check c = true'),
     ('c14_float_real_statements',
@@ -68,11 +72,24 @@ RULE = ("gen_from_u64 as a pure function: i8/u8 over (start,end) pairs (all 6553
         "2^53 and the >>11 boundary, random; next_raw and next(range) streams from boundary and random seeds (>= 64 draws "
         "from small ranges are checked for short periods); copies; shuffle with a scripted Rand source (arbitrary raw "
         "sequences incl. too short scripts) and with the real Rng; seed sets that must reach every order of a 3/4/5-slice. "
+        "Histories on ONE generator (Corr.CMix, state threaded by the model through every operation): consecutive shuffles "
+        "followed by raws (same length twice in a row must differ), f64 ranges drawn through Rng::next, random scripts of "
+        "6-20 interleaved operations (integer draws of different types/forms, f64 draws, next_raw, dropped runs, shuffles, "
+        "duplicates made by copy / clone / clone_from / Cell get-set / pass by value), runs of 63..2^20 (thorough 2^24) dropped "
+        "raws before the observed ones (model: proved state jump), eight other instantiations <A, C> of the const-generic "
+        "generator (small, even, zero, MAX, swapped constants), from_seed in const / static / thread_local initialisers. "
+        "Through the existing case types: raw streams of 257..4097 outputs, copies after 255..4096 draws in the five ways of "
+        "duplicating, a 1030-draw stream of a small range, real-Rng shuffles of 13..1000 elements, scripted shuffles of "
+        "257..1000 elements with raws choosing the top index, scripted shuffles whose slice holds Strings / [u64;5] / u8 / "
+        "Box / is the middle of a longer vector (executor-internal checks print X, which no model value equals), and "
+        "from_time() (must behave as from_seed(s) for an s between two clock readings; a later call has a later seed). "
         "Every case runs in the debug and the release profile. non-trivial = some raw >= range length on a non-empty "
-        "range (the remainder really reduces), a float draw on a non-empty range, a stream/shuffle of length >= 2")
-TRUSTED = ["executor harness/crates/c14 (calls Randomable::gen_from_u64, Rng::{from_seed,next_raw,next,shuffle}, a scripted "
-           "implementation of the public Rand trait; floats as to_bits/from_bits)",
-           "checks/c14.py (case generator, Coq term printer)"]
+        "range (the remainder really reduces), a float draw on a non-empty range, a stream/shuffle/history of length >= 2")
+TRUSTED = ["executor harness/crates/c14 (calls Randomable::gen_from_u64, Rng::{from_seed,from_time,next_raw,next,shuffle} and the "
+           "same methods of eight other LinearCongruentialGenerator64<A, C>, a scripted implementation of the public Rand "
+           "trait; floats as to_bits/from_bits; its internal checks: tags of shuffled non-i64 elements, untouched padding "
+           "around a shuffled sub-slice, the search of from_time's seed between two clock readings, Cell/by-value round trips)",
+           "checks/c14.py (case generator, Coq term printer, the table of constants (A, C) per generator name)"]
 ASSUMPTIONS = ["integers of a Rust type are their mathematical value in Z, (signedness, width) explicit; usize/isize are 64-bit",
                "f64 arithmetic is IEEE-754 binary64 round-to-nearest-even = Coq's SpecFloat at (53, 1024); no FMA contraction",
                "a debug-build overflow panic and a release-build wrap are both modelled as None; the theorems show neither occurs",
@@ -150,18 +167,92 @@ def harness_line(c):
     if k == "stream":
         return "stream %s %s %d %d %d %d" % (c["ty"], c["form"], c.get("s", 0), c.get("e", 0), c["seed"], c["n"])
     if k == "copy":
-        return "copy %d %d %d" % (c["seed"], c["kk"], c["n"])
+        return "copy %d %d %d%s" % (c["seed"], c["kk"], c["n"], (" " + c["how"]) if c.get("how") else "")
     if k == "shufs":
-        return "shufs %d %s %d %s" % (len(c["raws"]), " ".join(str(r) for r in c["raws"]), len(c["v"]),
-                                      " ".join(str(x) for x in c["v"]))
+        return "shufs %d %s %d %s%s" % (len(c["raws"]), " ".join(str(r) for r in c["raws"]), len(c["v"]),
+                                        " ".join(str(x) for x in c["v"]), (" " + c["elem"]) if c.get("elem") else "")
+    if k == "mix":
+        return "mix %s %d %d %s" % (c["gen"], c["seed"], len(c["ops"]), " ".join(mop_token(o) for o in c["ops"]))
+    if k == "time":
+        return "time"
     if k == "shufr":
         return "shufr %d %d %s" % (c["n"], len(c["seeds"]), " ".join(str(s) for s in c["seeds"]))
     raise ValueError(k)
 
 
+def mop_token(o):
+    kind = o["o"]
+    if kind == "d":
+        return "d:%s:%s:%d:%d" % (o["ty"], o["form"], o.get("s", 0), o.get("e", 0))
+    if kind == "f":
+        return "f:%d:%d" % (o["s"], o["e"])
+    if kind == "r":
+        return "r"
+    if kind == "k":
+        return "k:%d" % o["n"]
+    if kind == "s":
+        return "s:%d" % o["n"]
+    if kind == "c":
+        return "c:%s" % o["how"]
+    raise ValueError(kind)
+
+
+def mop_term(o):
+    kind = o["o"]
+    if kind == "d":
+        return "(MDraw %s %s)" % (ty_term(o), form_term(o))
+    if kind == "f":
+        return "(MFloat %s %s)" % (z(o["s"]), z(o["e"]))
+    if kind == "r":
+        return "MRaw"
+    if kind == "k":
+        return "(MSkip %d%%N)" % o["n"]
+    if kind == "s":
+        return "(MShuf %d%%N)" % o["n"]
+    if kind == "c":
+        return "MCopy"
+    raise ValueError(kind)
+
+
+# the generators the executor can run a history on (harness/crates/c14/src/main.rs: mix_dispatch): constants (A, C) of
+# LinearCongruentialGenerator64<A, C>; const/static/tls are Rng built by from_seed in a const context (fixed seeds)
+RNG_A, RNG_C = 6364136223846793005, 1442695040888963407
+GENS = {"rng": (RNG_A, RNG_C), "g53": (5, 3), "gc1": (RNG_A, 1), "gsm": (0xd1342543de82ef95, 0x9E3779B97F4A7C15),
+        "g11": (1, 1), "g0c": (0, 12345), "gmax": ((1 << 64) - 1, (1 << 64) - 1), "gswap": (RNG_C, RNG_A),
+        "geven": (RNG_A - 1, RNG_C - 1), "const": (RNG_A, RNG_C), "static": (RNG_A, RNG_C), "tls": (RNG_A, RNG_C)}
+FIXED_SEED = {"const": 7, "static": 0x0123456789ABCDEF, "tls": (1 << 64) - 1 - 41}
+# an observation that no model value can equal: printed by the executor as X when one of its internal consistency
+# checks fails (damaged element, touched padding, a copy that is not a copy, from_time outside the clock window)
+POISON = "(Some [(-1);(-1)])"
+
+
+def mix_obs_term(tok):
+    if tok == "P":
+        return "None"
+    if tok == "X":
+        return POISON
+    if tok == "-":
+        return "(Some [])"
+    return "(Some %s)" % zl(int(x) for x in tok.split(","))
+
+
 def coq_term(c, obs, profile):
     k = c["k"]
     t = obs.split()
+    if k == "mix":
+        a, cc = GENS[c["gen"]]
+        return "(CMix %s %s %s [%s] [%s])" % (z(a), z(cc), z(c["seed"]), ";".join(mop_term(o) for o in c["ops"]),
+                                             ";".join(mix_obs_term(x) for x in t[1:]))
+    if k == "time":
+        # the seed is part of the observation: from_time() must behave as from_seed(seed) of the model
+        if t[0] != "R":
+            return "(CRaw 0 [(-1)])"
+        return "(CRaw %s %s)" % (z(int(t[1])), zl(int(x) for x in t[2:]))
+    if t[0] == "X":
+        if k == "copy":
+            return "(CCopy %s %d%%N [(-1)] [(-2)])" % (z(c["seed"]), c["kk"])
+        if k == "shufs":
+            return "(CShufS %s %s (Some %s))" % (zl(c["raws"]), zl(c["v"]), zl(list(c["v"]) + [424242]))
     if k == "int":
         pairs = ";".join("(%s,%s)" % (z(r), oz(o)) for r, o in zip(c["raws"], t[1:]))
         return "(CInt %s %s [%s])" % (ty_term(c), form_term(c), pairs)
@@ -216,11 +307,24 @@ def nontrivial(c, obs):
         return c["n"] >= 2
     if k == "shufs":
         return len(c["v"]) >= 2
+    if k == "mix":
+        return len(c["ops"]) >= 2
+    if k == "time":
+        return obs.startswith("R")
     return c["n"] >= 2
 
 
 def classify(c, obs):
     k = c["k"]
+    if k == "mix":
+        kinds = "".join(sorted({o["o"] for o in c["ops"]}))
+        return "mix/%s/%s/%s" % (c["gen"], kinds, "panic" if obs.endswith("P") else "ok")
+    if k == "time":
+        return "time"
+    if k == "copy" and c.get("how"):
+        return "copy/" + c["how"]
+    if k == "raw":
+        return "raw/long" if c["n"] > 128 else "raw"
     if k in ("int", "reach", "stream"):
         n = form_len(c)
         cls = "empty" if n <= 0 else ("len1" if n == 1 else ("full" if n == (1 << TYPES[c["ty"]][1]) else
@@ -229,7 +333,8 @@ def classify(c, obs):
     if k == "f64":
         return "f64/" + ("panic" if obs == "P" else "value")
     if k == "shufs":
-        return "shufs/len%d/%s" % (len(c["v"]), "panic" if obs == "P" else "ok")
+        return "shufs/len%d/%s%s" % (len(c["v"]), "panic" if obs == "P" else "ok",
+                                     ("/" + c["elem"].split()[0]) if c.get("elem") else "")
     if k == "shufr":
         return "shufr/len%d%s" % (c["n"], "/all-orders" if c.get("all") else "")
     return k
@@ -457,14 +562,23 @@ def gen_shuffles(rng, tier, cases):
                 raws.append(rng.range(0, i + 1))
             else:
                 raws.append(rng.next())
-        cases.append({"k": "shufs", "raws": raws, "v": v})
+        c = {"k": "shufs", "raws": raws, "v": v}
+        if rng.chance(2, 5):
+            # the same shuffle on a slice of Strings / [u64; 5] / u8 / Box / the middle of a longer vector
+            e = rng.choice(ELEMS)
+            c["elem"] = e if e != "sub" else "sub %d %d" % (rng.choice([0, 1, 3]), rng.choice([0, 1, 2]))
+        cases.append(c)
     # every script of index choices for short slices: each of the n! scripts must give a different order
     for m in (2, 3, 4):
         scripts = [[]]
         for i in range(1, m):
             scripts = [sc + [j] for sc in scripts for j in range(i + 1)]
-        for sc in scripts:
+        for i, sc in enumerate(scripts):
             cases.append({"k": "shufs", "raws": sc, "v": list(range(m))})
+            if m >= 3:
+                # ... and on the other element types (j == i, the swap of an element with itself, occurs in 1/2 .. 1/4 of them)
+                e = ELEMS[i % len(ELEMS)]
+                cases.append({"k": "shufs", "raws": sc, "v": [10 * x - 7 for x in range(m)], "elem": e if e != "sub" else "sub 2 1"})
     for m in range(0, 9):
         seeds = [0, 1, 42, M64] + [rng.next() for _ in range(8 if tier == "quick" else 60)]
         cases.append({"k": "shufr", "n": m, "seeds": seeds})
@@ -477,9 +591,162 @@ def gen_shuffles(rng, tier, cases):
         cases.append({"k": "shufr", "n": 5, "seeds": list(range(2500)), "all": True})
 
 
+# ----- histories on one generator (Corr.CMix)
+F_PAIRS = [(0.0, 1.0), (10.0, 15.0), (-10.0, 15.0), (-15.0, -10.0), (-1e308, 1e308), (1e16, 1e16 + 2), (0.0, 5e-324),
+           (5e-324, 1e-323), (-5e-324, 5e-324), (-1.7976931348623157e308, 1.7976931348623157e308), (-0.0, 1.0), (-1.0, 0.0),
+           (-1.0, -0.0), (1.0, 1.0000000000000002), (0.1, 0.3), (2.225073858507201e-308, 2.2250738585072014e-308),
+           (1e300, 1.0000000000000002e300), (-1e-300, 1e300), (3.0, 1e16), (0.0, 2.2250738585072014e-308)]
+SMALL_DRAWS = [("u32", "range", 0, 4), ("u8", "range", 0, 2), ("i8", "incl", -1, 1), ("u64", "range", 0, 3),
+               ("usize", "toincl", 0, 5), ("i64", "range", -4, 4), ("u16", "to", 0, 8), ("i32", "incl", 0, 15),
+               ("isize", "range", -1, 1), ("u8", "incl", 254, 255), ("i16", "range", -300, 300), ("u8", "toincl", 0, 0)]
+WIDE_DRAWS = [("i16", "full", 0, 0), ("u64", "full", 0, 0), ("i64", "range", -(1 << 63), (1 << 63) - 1), ("u32", "range", 42, 420),
+              ("i8", "incl", -128, 127), ("u8", "range", 0, 255), ("i64", "incl", -(1 << 63), (1 << 63) - 1),
+              ("u64", "range", 10, M64 - 10), ("i32", "full", 0, 0), ("usize", "incl", 0, M64), ("isize", "to", 0, (1 << 63) - 1)]
+HOWS = ["copy", "clone", "clonefrom", "cell", "byval"]
+OTHER_GENS = ["g53", "gc1", "gsm", "g11", "g0c", "gmax", "gswap", "geven"]
+
+
+def d_op(spec):
+    ty, form, s0, e0 = spec
+    return {"o": "d", "ty": ty, "form": form, "s": s0, "e": e0}
+
+
+def f_op(rng, pair=None):
+    a, b = pair if pair else rng.choice(F_PAIRS)
+    return {"o": "f", "s": fbits(a), "e": fbits(b)}
+
+
+def random_op(rng):
+    kind = rng.below(12)
+    if kind < 3:
+        return d_op(rng.choice(SMALL_DRAWS))
+    if kind < 5:
+        return d_op(rng.choice(WIDE_DRAWS))
+    if kind < 7:
+        return f_op(rng)
+    if kind == 7:
+        return {"o": "r"}
+    if kind == 8:
+        return {"o": "k", "n": rng.choice([0, 1, 2, 7, 63, 64, 255, 256, 1000])}
+    if kind < 11:
+        return {"o": "s", "n": rng.choice([0, 1, 2, 3, 3, 4, 5, 8, 13, 20])}
+    return {"o": "c", "how": rng.choice(HOWS)}
+
+
+def mix(gen, seed, ops):
+    return {"k": "mix", "gen": gen, "seed": FIXED_SEED.get(gen, seed), "ops": ops}
+
+
+def gen_mix(rng, tier, cases):
+    q = tier == "quick"
+    seeds = [0, 42, rng.next()] if q else [0, 1, 42, M64, 1 << 63] + [rng.next() for _ in range(7)]
+    r2 = [{"o": "r"}, {"o": "r"}]
+    # consecutive shuffles on one generator, then raws: the state a shuffle leaves behind (number of raws consumed,
+    # write-back) is observed; the same length twice in a row must give two different orders
+    lens = [[5, 5], [8, 8, 8], [12, 12], [0, 1, 2, 3], [3, 5, 8, 5, 3], [16, 16, 10, 10], [2, 2, 2, 2], [1, 12, 0, 12], [64, 64]]
+    if not q:
+        lens += [[rng.choice([0, 1, 2, 3, 5, 8, 10, 12, 31]) for _ in range(rng.range(2, 6))] for _ in range(150)]
+        lens += [[257, 257], [300, 12, 300]]
+    for i, ms in enumerate(lens):
+        for seed in (seeds[:2] if q else seeds[:4] if len(ms) < 6 and max(ms) < 100 else seeds[:1]):
+            cases.append(mix("rng", seed, [{"o": "s", "n": m} for m in ms] + r2))
+        cases.append(mix(OTHER_GENS[i % len(OTHER_GENS)], rng.next(), [{"o": "s", "n": m} for m in ms[:3]] + r2))
+    # degenerate constants on purpose (constant stream, period 2, counter): consecutive shuffles may repeat there
+    for gen, ms in (("g0c", [12, 12]), ("gmax", [31, 31]), ("g11", [10, 10, 10])):
+        cases.append(mix(gen, rng.next(), [{"o": "s", "n": m} for m in ms] + r2))
+    # f64 ranges drawn THROUGH the generator (rng.next(10.0..15.0)), 8 draws per history
+    for i, pair in enumerate(F_PAIRS):
+        for seed in ([seeds[i % 3]] if q else seeds[:3]):
+            cases.append(mix("rng", seed, [f_op(rng, pair) for _ in range(8)]))
+    cases.append(mix("rng", 1, [f_op(rng, (0.0, 1.0)), f_op(rng, (1.0, 1.0)), {"o": "r"}]))        # empty: panics, ends
+    cases.append(mix("rng", 1, [f_op(rng, (0.0, 1.0)), {"o": "f", "s": NAN, "e": fbits(1.0)}]))
+    cases.append(mix("gsm", 5, [f_op(rng) for _ in range(6)]))
+    for _ in range(0 if q else 200):
+        a, b = sorted([rng.choice(F_SPECIAL), rng.choice(F_SPECIAL)])
+        cases.append(mix("rng", rng.next(), [f_op(rng, (a, b)) if rng.chance(1, 2) else f_op(rng) for _ in range(6)]))
+    # mixed histories: different types, forms and operations interleaved on one generator
+    for _ in range(50 if q else 1000):
+        ops = [random_op(rng) for _ in range(rng.range(6, 20))]
+        gen = "rng" if rng.chance(7, 10) else rng.choice(OTHER_GENS)
+        cases.append(mix(gen, rng.choice(seeds) if rng.chance(1, 2) else rng.next(), ops))
+    cases.append(mix("rng", 3, [d_op(SMALL_DRAWS[0]), {"o": "d", "ty": "u8", "form": "range", "s": 3, "e": 3}, {"o": "r"}]))   # panics
+    # the const-generic generator with other constants: raws, a stream, a shuffle
+    for gen in OTHER_GENS:
+        for seed in ([0, rng.next()] if q else [0, 1, M64, 1 << 63] + [rng.next() for _ in range(4)]):
+            cases.append(mix(gen, seed, [{"o": "r"}] * 8))
+            cases.append(mix(gen, seed, [d_op(rng.choice(SMALL_DRAWS)) for _ in range(6)] + [{"o": "s", "n": 6}] + r2))
+    # long runs of one generator: the outputs after n dropped raws (state jump in the model)
+    skips = [63, 64, 65, 255, 256, 257, 1023, 1024, 4095, 4096, 65535, 65536, 100000, 1 << 20]
+    if not q:
+        skips += [(1 << 24) + 3, (1 << 16) + 1, 624, 625, 1 << 22]
+    for n in skips:
+        for seed in ([rng.choice(seeds)] if q else seeds[:4]):
+            cases.append(mix("rng", seed, [{"o": "k", "n": n}] + r2 + [d_op(SMALL_DRAWS[0])]))
+    cases.append(mix("rng", 42, [{"o": "k", "n": n} for n in (255, 0, 255, 511, 1023, 2047)] + r2))       # boundaries 256, 257, 513, ...
+    for gen in (OTHER_GENS[:3] if q else OTHER_GENS):
+        cases.append(mix(gen, rng.next(), [{"o": "k", "n": rng.choice([256, 65536, 100000])}] + r2))
+    # duplicates made in five ways after a history of draws and a shuffle
+    for how in HOWS:
+        for seed in (seeds[:2] if q else seeds[:6]):
+            cases.append(mix("rng", seed, [d_op(rng.choice(SMALL_DRAWS)), {"o": "s", "n": rng.choice([2, 3, 5])}, {"o": "c", "how": how}]
+                             + r2 + [{"o": "c", "how": rng.choice(HOWS)}, d_op(rng.choice(WIDE_DRAWS)), {"o": "r"}]))
+        cases.append(mix(rng.choice(OTHER_GENS), rng.next(), [{"o": "r"}, {"o": "c", "how": how}] + r2))
+    # from_seed in const / static / thread_local initialisers
+    for gen in ("const", "static", "tls"):
+        cases.append(mix(gen, 0, [{"o": "r"}, d_op(SMALL_DRAWS[0]), {"o": "s", "n": 4}, {"o": "c", "how": "cell"}] + r2))
+
+
+def gen_long(rng, tier, cases):
+    """long histories of ONE generator / long slices, through the existing case types"""
+    q = tier == "quick"
+    # raw streams across 64 / 256 / 1024 / 4096 outputs
+    for n, seed in ([(257, 42), (1030, rng.next())] if q else
+                    [(n, sd) for n in (255, 256, 257, 1000) for sd in (0, 42, rng.next())] + [(4097, 42), (4097, rng.next())]):
+        cases.append({"k": "raw", "seed": seed, "n": n})
+    # copies after long runs; the five ways of duplicating
+    for i, how in enumerate(HOWS):
+        cases.append({"k": "copy", "seed": rng.next(), "kk": rng.below(5), "n": 6, "how": how})
+        cases.append({"k": "copy", "seed": [0, 42, M64][i % 3], "kk": [255, 256, 257, 300, 64][i], "n": 8, "how": how})
+    if q:
+        cases.append({"k": "copy", "seed": 42, "kk": 1000, "n": 300})
+    else:
+        for seed, n in ((42, 5000), (rng.next(), 1000)):
+            cases.append({"k": "copy", "seed": seed, "kk": 1000, "n": n})             # the run `extra` only compared a == b on
+        for kk in (1023, 1024, 1025, 4096):
+            cases.append({"k": "copy", "seed": rng.next(), "kk": kk, "n": 16, "how": rng.choice(HOWS)})
+    # one long stream of a small range (aperiodicity over > 1024 draws)
+    for (ty, form, s0, e0) in ([("u32", "range", 0, 4)] if q else [("u32", "range", 0, 4), ("u8", "range", 0, 2), ("i8", "incl", -1, 1), ("u64", "range", 0, 3)]):
+        cases.append({"k": "stream", "ty": ty, "form": form, "s": s0, "e": e0, "seed": 42 if q else rng.next(), "n": 1030})
+    # long slices: real generator
+    for n in ([13, 64, 65, 257, 300] if q else [13, 63, 64, 65, 255, 256, 257, 300, 1000]):
+        cases.append({"k": "shufr", "n": n, "seeds": [42, rng.next()] if n < 1000 or q else [42, rng.next(), 0]})
+    # long slices: scripted source, raws that pick the top index / a multiple plus the top index / anything
+    for m in ([257, 300] if q else [65, 256, 257, 300, 1000]):
+        for kind in ((0, 1) if q else (0, 1, 2, 2)):
+            raws = []
+            for i in range(m - 1):
+                top = i + 1                        # step i+1 draws from 0..=i+1 (i+2 values)
+                if kind == 0:
+                    raws.append(top - (i % 3 == 0) * min(top, 1 + i % 7))
+                elif kind == 1:
+                    raws.append(rng.range(0, M64 // (i + 2) - 1) * (i + 2) + top - (i % 2))
+                else:
+                    raws.append(rng.next())
+            v = list(range(m)) if kind != 1 else [rng.range(-(1 << 62), 1 << 62) for _ in range(m)]
+            cases.append({"k": "shufs", "raws": raws, "v": v})
+    # from_time(): behaves as from_seed(now)
+    for _ in range(2 if q else 5):
+        cases.append({"k": "time"})
+
+
+ELEMS = ["string", "arr5", "u8", "box", "sub"]
+
+
 def params_in_scope(c):
     """the parameter part of Corr.in_scope (the hypothesis of c14_model_check_spec_check): range bounds are values
     of the type; the other clauses (equally long copies, slice length <= 2^64) hold by construction of coq_term"""
+    if c["k"] == "mix":
+        return all(params_in_scope(dict(o, k="int")) for o in c["ops"] if o["o"] == "d")
     if c["k"] in ("int", "reach", "stream"):
         lo, hi = tmin(c["ty"]), tmax(c["ty"])
         if c["form"] in ("range", "incl"):
@@ -496,6 +763,8 @@ def generate(rng, tier):
     gen_float(rng.fork("float"), tier, cases)
     gen_streams(rng.fork("streams"), tier, cases)
     gen_shuffles(rng.fork("shuffles"), tier, cases)
+    gen_mix(rng.fork("mix"), tier, cases)
+    gen_long(rng.fork("long"), tier, cases)
     # every generated case lies in the scope of c14_model_check_spec_check (measured in Coq on the quick tier:
     # forallb in_scope holds on all 9928 case terms of seed 1)
     assert all(params_in_scope(c) for c in cases)
@@ -535,11 +804,28 @@ def shrink(c):
             if (a, b) != (c["s"], c["e"]):
                 out.append(dict(c, s=a, e=b))
     elif k in ("raw", "stream", "copy"):
+        if k == "copy" and c["kk"] > 0:
+            out.append(dict(c, kk=c["kk"] // 2))
+        if k == "copy" and c.get("how"):
+            out.append({kk: v for kk, v in c.items() if kk != "how"})
         if c["n"] > 1 and not (k == "stream" and c["n"] == 64):
             out.append(dict(c, n=max(64, c["n"] // 2) if (k == "stream" and c["n"] > 64) else c["n"] // 2))
             out.append(dict(c, n=c["n"] - 1))
         for s2 in {0, 1, 42, c["seed"] // 2}:
             if s2 != c["seed"]:
+                out.append(dict(c, seed=s2))
+    elif k == "mix":
+        ops = c["ops"]
+        if len(ops) > 1:
+            out.append(dict(c, ops=ops[:len(ops) // 2]))
+            out.append(dict(c, ops=ops[len(ops) // 2:]))
+            for i in range(min(len(ops), 30)):
+                out.append(dict(c, ops=ops[:i] + ops[i + 1:]))
+        for i, o in enumerate(ops[:8]):
+            if o["o"] in ("k", "s") and o["n"] > 1:
+                out.append(dict(c, ops=ops[:i] + [dict(o, n=o["n"] // 2)] + ops[i + 1:]))
+        if c["gen"] not in FIXED_SEED:
+            for s2 in {0, 1, 42} - {c["seed"]}:
                 out.append(dict(c, seed=s2))
     elif k == "shufs":
         m = len(c["v"])
@@ -574,7 +860,56 @@ def extra(ctx, known):
     of small-range streams, determinism of copies over long runs."""
     binp = ctx.bins["release"]
     nseeds = 10000 if ctx.tier == "quick" else 200000
-    cov, viol = {"shuffle_orders": [], "period_search": [], "copy_runs": []}, []
+    cov, viol = {"shuffle_orders": [], "period_search": [], "copy_runs": [], "big_shuffles": [], "position_counts": []}, []
+    # slices beyond anything Coq can replay: Rng::shuffle against Fisher-Yates written in the executor over next_raw of a
+    # second generator (exact comparison, both build profiles; lengths around 2^16 expose a narrowed index type)
+    big = [(65537, 42, "release"), (100000, ctx.seed & M64, "release"), (65537, 1, "debug")]
+    if ctx.tier != "quick":
+        big += [(n, sd, prof) for n in (255, 256, 257, 65535, 65536, 65537, 100000, 1 << 20) for sd in (0, ctx.seed & M64)
+                for prof in ("release", "debug") if not (prof == "debug" and n > 100000)]
+    for (n, sd, prof) in big:
+        line = "shufbig %d %d" % (n, sd)
+        out = ask(ctx.bins[prof], line)
+        t = out.split()
+        ok = len(t) == 3 and t[:2] == ["B", "ok"] and int(t[2]) <= 12          # fixed points ~ Poisson(1)
+        cov["big_shuffles"].append({"len": n, "seed": sd, "profile": prof, "result": out})
+        if not ok:
+            viol.append({"name": "shufbig-%d-%d" % (n, sd % 1000), "kind": "counterexample",
+                         "payload": {"what": "implementation-level search: Rng::from_seed(%d).shuffle of [0..%d) differs from "
+                                             "Fisher-Yates (for i in 1..n: swap(i, next_raw %% (i+1))) over the same raw stream "
+                                             "(B diff <first differing index>), leaves the generator in another state (B state), "
+                                             "or has implausibly many fixed points (B ok <count>); %s build" % (sd, n, prof),
+                                     "executor_line": line, "executor_output": out}})
+    # element x position counts of a 64-slice over many seeds (fairness beyond the lengths whose orders can be enumerated)
+    for (n, ns) in ([(64, 20000)] if ctx.tier == "quick" else [(64, 100000), (16, 100000), (257, 50000)]):
+        for seed0 in (0, (ctx.seed * 0x9E3779B97F4A7C15) & M64):
+            line = "poschi %d %d %d" % (n, ns, seed0)
+            out = ask(binp, line)
+            t = out.split()
+            mean, sd_ = n * (n - 1.0), math.sqrt(2.0) * n          # chi2 of a uniform permutation matrix: n/(n-1) * chi2((n-1)^2)
+            bound = mean + 6.0 * sd_ + 10.0
+            ok = len(t) == 4 and t[0] == "C" and int(t[1]) / 1000.0 <= bound and int(t[2]) > 0
+            cov["position_counts"].append({"len": n, "seeds": ns, "first_seed": seed0, "chi2": int(t[1]) / 1000.0 if len(t) == 4 else None,
+                                           "chi2_bound": round(bound, 1), "min_count": int(t[2]) if len(t) == 4 else None,
+                                           "max_count": int(t[3]) if len(t) == 4 else None})
+            if not ok:
+                viol.append({"name": "poschi-%d-%d" % (n, seed0 % 1000), "kind": "counterexample",
+                             "payload": {"what": "implementation-level search: over %d seeds the counts of (position, element) after "
+                                                 "shuffling [0..%d) are not near-uniform (output: C chi2*1000 min max; bound %.1f)"
+                                                 % (ns, n, bound),
+                                         "executor_line": line, "executor_output": out}})
+    # the order statistics once on the debug build as well (the other searches below use the release build)
+    for (n, ns_d) in ((4, 3000), (5, 6000)):
+        line = "orders %d %d 0" % (n, ns_d)
+        out = ask(ctx.bins["debug"], line)
+        t = out.split()
+        ok = len(t) == 5 and t[0] == "O" and int(t[1]) == math.factorial(n)
+        cov["shuffle_orders"].append({"len": n, "seeds": ns_d, "first_seed": 0, "profile": "debug", "orders_reached": int(t[1]) if len(t) == 5 else None,
+                                      "of": math.factorial(n)})
+        if not ok:
+            viol.append({"name": "orders-debug-%d" % n, "kind": "counterexample",
+                         "payload": {"what": "implementation-level search (debug build): shuffling [0..%d) over %d seeds does not "
+                                             "reach all orders" % (n, ns_d), "executor_line": line, "executor_output": out}})
     for n in (4, 5, 6):
         for seed0 in (0, (ctx.seed * 0x9E3779B97F4A7C15) & M64):
             line = "orders %d %d %d" % (n, nseeds, seed0)
@@ -621,12 +956,13 @@ def extra(ctx, known):
         else:
             first[kind] = v
     viol = list(first.values())
-    ctx.say("[C14] search: shuffle orders over %d seeds (len 4,5,6), period search, copies: %d violation(s)" % (nseeds, len(viol)))
+    ctx.say("[C14] search: shuffle orders over %d seeds (len 4,5,6), big shuffles (len up to %d), position counts, period "
+            "search, copies: %d violation(s)" % (nseeds, max(b[0] for b in big), len(viol)))
     return {"coverage": {"implementation_search": cov}, "violations": viol, "known": []}
 
 
 MANIFEST = {
-    "text": "Coq theorems (20 pinned; the integer, LCG and shuffle ones closed under the global context, the real-number "
+    "text": "Coq theorems (22 pinned; the integer, LCG and shuffle ones closed under the global context, the real-number "
             "float ones with Flocq's standard-library axioms) about an executable Gallina model of rlib_rand (integer "
             "ranges parametric in width and signedness with explicit wrapping, the guarded f64 range on "
             "SpecFloat(53,1024), the 64-bit LCG with its output mixing, shuffle over an arbitrary raw source): "
@@ -639,7 +975,9 @@ MANIFEST = {
             "produced by an explicit seed of the real generator), c14_float_in_range / "
             "c14_float_in_range_real / c14_float_unit_in_0_1 / c14_float_empty_panics (start <= x < end for every finite "
             "start < end and every raw word, in SFcompare and in R), c14_old_low_bits_periodic (the repaired defect, "
-            "proved: the old output had period dividing 2^k in its low k bits). The model is tied to the code on every "
+            "proved: the old output had period dividing 2^k in its low k bits), c14_generic_instance / c14_jump_is_iterated_step "
+            "(Rng is the instance (lcg_A, lcg_C) of the model of the const-generic generator; the repeated-squaring state jump "
+            "used for long runs equals the iterated state transition for all constants). The model is tied to the code on every "
             "run: the executor calls gen_from_u64 / next_raw / next / shuffle from /repo (debug and release builds) on "
             "boundary-directed inputs and Coq proves model = implementation and implementation |= specification on every "
             "case. c14_model_check_spec_check (axiom-free) proves that the first implies the second: for every case in "
@@ -648,7 +986,9 @@ MANIFEST = {
             "model_check c = true -> spec_check c = true, so range membership, panics exactly on empty ranges, "
             "reachability sweeps, start <= x < end on the decoded f64 bit patterns (the model's results are canonical "
             "binary64 values, proved on integers in ProofsValid.v), u64 raws, equal copies and permutation results reach "
-            "the implementation on every sampled case by proof, not only by a second computation. PARTIAL: near-equal frequency of permutations and aperiodicity are statistical; finite reachability is "
+            "the implementation on every sampled case by proof, not only by a second computation; the same for every observation "
+            "of a history of mixed operations on one generator (draws of several types, f64 draws, raws, long dropped runs, "
+            "consecutive shuffles, duplicates; any constants A, C). PARTIAL: near-equal frequency of permutations and aperiodicity are statistical; finite reachability is "
             "proved, the rest is measured by a search (chi-square over seeds, period detection).",
     "level_note": "Trusted: Coq kernel + vm_compute; the Rust executor and the Python case printer; theorems are about the model, "
                   "the correspondence is sampled (exhaustive over 8-bit range bounds in the thorough tier).",
